@@ -40,12 +40,12 @@ theorem floatBits_correct_all (d0 : Dc) (hwf : WF d0) (ht0 : d0.trunc = false) :
     exact floatBits_follows d0 hwf hemp (dval d0) n0 dd0 hn0 hdd hfr (le_refl _) (fun _ => follows_self d0 ht0) hi
 
 /-- **the mirrored slow path = the specification, all runs** -/
-theorem slowPathMirror_full (s : Bytes) (hu : underscoreOK s = true) (hlit : expLit s < 10000)
+theorem slowPathMirror_full (s : Bytes) (hu : underscoreOK s = true)
     (hmant : ∀ p, recognise s = some p → p.mant < 10 ^ 800) :
     (slowPathMirror s).toExcept =
       match recognise s with
       | none => .error .syntax
-      | some p => if p.hex then .error .syntax else p.eval := by
+      | some p => if p.hex then .error .syntax else (clampP p (expGapS s)).eval := by
   obtain ⟨k1, k2, k3⟩ := decSet_spec s hu
   unfold slowPathMirror
   cases hrec : recognise s with
@@ -53,7 +53,7 @@ theorem slowPathMirror_full (s : Bytes) (hu : underscoreOK s = true) (hlit : exp
   | some p =>
     simp only []
     cases hph : p.hex
-    · obtain ⟨d, e1, e2, e3, e4, e5, e6⟩ := k3 p hrec hph (hmant p hrec) hlit
+    · obtain ⟨d, e1, e2, e3, e4, e5, e6⟩ := k3 p hrec hph (hmant p hrec)
       rw [e1]
       simp only [Bool.false_eq_true, if_false]
       have hfb := floatBits_correct_all d e2 e3
@@ -63,11 +63,11 @@ theorem slowPathMirror_full (s : Bytes) (hu : underscoreOK s = true) (hlit : exp
         cases (floatBits d).ovf <;> rfl
       rw [hte, hfb]
       by_cases hm0 : p.mant = 0
-      · rw [if_pos (e5 hm0), eval_zero p hm0, e4]
+      · rw [if_pos (e5 hm0), eval_zero (clampP p (expGapS s)) hm0, e4]; rfl
       · obtain ⟨f1, f2⟩ := e6 hm0
         rw [if_neg f1, e4]
         symm
-        apply eval_of_value p (Nat.pos_of_ne_zero hm0) _ _ (decFrac_snd_pos _ _)
+        apply eval_of_value (clampP p (expGapS s)) (Nat.pos_of_ne_zero hm0) _ _ (decFrac_snd_pos _ _)
         rw [dval_frac, f2]
     · rw [k2 p hrec hph]; rfl
 
@@ -75,20 +75,20 @@ theorem slowPathMirror_full (s : Bytes) (hu : underscoreOK s = true) (hlit : exp
 exactly what `parseFloatSpec` says, for every byte string whose exponent literal is below the
 clamp and whose mantissa has at most 800 significant digits — including every run on which the
 multiprecision shifts overflow the 800-digit buffer and set `trunc`. -/
-theorem parseFloatMirror_full (s : Bytes) (hlit : expLit s < 10000)
+theorem parseFloatMirror_full (s : Bytes) (hlit : expLit s < 100000)
     (hmant : ∀ p, recognise s = some p → p.mant < 10 ^ 800) :
-    (parseFloatMirror s).toExcept = parseFloatSpec s :=
-  parseFloatMirror_of_slow s hlit (fun hu => slowPathMirror_full s hu hlit hmant)
+    (parseFloatMirror s).toExcept = parseFloatSpec s := by
+  rw [parseFloatMirror_of_slow s (fun hu => slowPathMirror_full s hu hmant), parseFloatSpecG_small s hlit]
 
 /-- **the mirrored slow path = the specification, every text outside the class of finding N3** —
 also when the text has more than 800 significant digits (all the excess after the point), so
 that `set` itself truncates -/
-theorem slowPathMirror_all (s : Bytes) (hu : underscoreOK s = true) (hlit : expLit s < 10000)
+theorem slowPathMirror_all (s : Bytes) (hu : underscoreOK s = true)
     (hN3 : inClassN3 s = false) :
     (slowPathMirror s).toExcept =
       match recognise s with
       | none => .error .syntax
-      | some p => if p.hex then .error .syntax else p.eval := by
+      | some p => if p.hex then .error .syntax else (clampP p (expGapS s)).eval := by
   obtain ⟨k1, k2, _⟩ := decSet_spec s hu
   have k3 := decSet_specT s hu
   unfold slowPathMirror
@@ -102,7 +102,7 @@ theorem slowPathMirror_all (s : Bytes) (hu : underscoreOK s = true) (hlit : expL
         rw [hrec] at hN3
         simp only [hph, Bool.not_false, Bool.true_and, decide_eq_false_iff_not] at hN3
         omega
-      obtain ⟨d, e1, e2, e4, e5, e6⟩ := k3 p hrec hph hI hlit
+      obtain ⟨d, e1, e2, e4, e5, e6⟩ := k3 p hrec hph hI
       rw [e1]
       simp only [Bool.false_eq_true, if_false]
       have hte : (⟨(floatBits d).bits, if (floatBits d).ovf then some NumErr.range else none⟩ : FloatRes).toExcept
@@ -112,33 +112,37 @@ theorem slowPathMirror_all (s : Bytes) (hu : underscoreOK s = true) (hlit : expL
       rw [hte]
       by_cases hm0 : p.mant = 0
       · obtain ⟨f1, f2⟩ := e5 hm0
-        rw [floatBits_correct_all d e2 f2, if_pos f1, eval_zero p hm0, e4]
+        rw [floatBits_correct_all d e2 f2, if_pos f1, eval_zero (clampP p (expGapS s)) hm0, e4]; rfl
       · obtain ⟨f1, f2, f3, f4, f5⟩ := e6 hm0
-        have hvpos : (0 : ℚ) < valueOf p := by
+        have hvpos : (0 : ℚ) < valueOf (clampP p (expGapS s)) := by
           obtain ⟨_, _, hp⟩ := dval_bounds d e2 f1
           linarith
-        have hfr : (((decFrac p.mant p.exp).1 : Nat) : ℚ) / ((decFrac p.mant p.exp).2 : Nat) = valueOf p := by
-          rw [decFrac_ratio]; unfold valueOf; simp [hph]
-        have hdd := decFrac_snd_pos p.mant p.exp
-        generalize (decFrac p.mant p.exp).1 = n0 at *
-        generalize (decFrac p.mant p.exp).2 = dd0 at *
+        have hfr : (((decFrac p.mant (p.exp + expGapS s)).1 : Nat) : ℚ) / ((decFrac p.mant (p.exp + expGapS s)).2 : Nat) = valueOf (clampP p (expGapS s)) := by
+          rw [decFrac_ratio]; unfold valueOf clampP; simp [hph]
+        have hdd := decFrac_snd_pos p.mant (p.exp + expGapS s)
+        generalize (decFrac p.mant (p.exp + expGapS s)).1 = n0 at *
+        generalize (decFrac p.mant (p.exp + expGapS s)).2 = dd0 at *
         have hn0 : 0 < n0 := by
           rcases Nat.eq_zero_or_pos n0 with h | h
           · rw [h] at hfr; simp at hfr; linarith
           · exact h
-        have hfol : d.dp ≤ 310 → Follows d (valueOf p) 0 :=
+        have hfol : d.dp ≤ 310 → Follows d (valueOf (clampP p (expGapS s))) 0 :=
           fun hdp => follows_of_floor d e2 f1 _ f2 f3 f4 f5 (by omega)
-        rw [floatBits_follows d e2 f1 (valueOf p) n0 dd0 hn0 hdd hfr f2 hfol (floor_hi d e2 f1 _ f3), e4]
+        rw [floatBits_follows d e2 f1 (valueOf (clampP p (expGapS s))) n0 dd0 hn0 hdd hfr f2 hfol (floor_hi d e2 f1 _ f3), e4]
         symm
-        exact eval_of_value p (Nat.pos_of_ne_zero hm0) n0 dd0 hdd hfr
+        exact eval_of_value (clampP p (expGapS s)) (Nat.pos_of_ne_zero hm0) n0 dd0 hdd hfr
     · rw [k2 p hrec hph]; rfl
 
 /-- **parseFloatMirror_all** — the FULLY MIRRORED model of `bytesconv.ParseFloat(s, 64)` equals
 `parseFloatSpec` for EVERY byte string with an exponent literal below the clamp that is not in
 the class of finding N3 — the same two hypotheses as `parseFloat_eq_spec` for the model with
 the specified slow path. No condition on the run, none on the number of digits. -/
-theorem parseFloatMirror_all (s : Bytes) (hlit : expLit s < 10000) (hN3 : inClassN3 s = false) :
-    (parseFloatMirror s).toExcept = parseFloatSpec s :=
-  parseFloatMirror_of_slow s hlit (fun hu => slowPathMirror_all s hu hlit hN3)
+theorem parseFloatMirror_clamped (s : Bytes) (hN3 : inClassN3 s = false) :
+    (parseFloatMirror s).toExcept = parseFloatSpecG (expGapS s) s :=
+  parseFloatMirror_of_slow s (fun hu => slowPathMirror_all s hu hN3)
+
+theorem parseFloatMirror_all (s : Bytes) (hlit : expLit s < 100000) (hN3 : inClassN3 s = false) :
+    (parseFloatMirror s).toExcept = parseFloatSpec s := by
+  rw [parseFloatMirror_clamped s hN3, parseFloatSpecG_small s hlit]
 
 end C03
